@@ -4,13 +4,16 @@ import re
 PROP = "C15"
 ENGINE = "xmltok"
 USES_TRANSLATOR = True
-LEAN_TARGETS = ["H5V.Props.C15"]
-AUDIT_IMPORTS = ["H5V.Props.C15"]
+LEAN_TARGETS = ["H5V.Props.C15", "H5V.Props.C15Run"]
+AUDIT_IMPORTS = ["H5V.Props.C15Run"]
 THEOREMS = ["H5V.Props.C15." + t for t in [
     "xmlTokSets_match", "C15_sets_cover", "C15_fast_eq_slow",
     "C15_step_mono", "C15_step_resume", "C15_step_good", "C15_step_sim",
     "C15_chunking", "C15_chunking_tokens", "C15_feedAll", "C15_finish_sim", "C15_bom_once",
     "run_done_runsTo", "runsTo_run_done", "feedAll_session", "good_initial",
+    # whole-run independence of exact_errors (Props/C15Run.lean)
+    "E_iff", "C15_step_optE", "C15_run_optE", "C15_feed_optE", "C15_finish_optE", "C15_session_optE",
+    "C15_exact_errors_tokens", "C15_exact_errors_on_off",
 ]] + ["H5V.Model.XmlTok." + t for t in [
     "step_mono", "step_resume", "step_good", "step_sim", "runsTo_chunk", "session_flatten", "step_discardBom",
     "setOf_cover", "transSet_dead",
@@ -36,8 +39,8 @@ RULE = ("families: state-cover (every XmlState × character class (+EOF) × suff
         "on/off. non-trivial = more than EOF was emitted; distinct = distinct (case, output)")
 EXPLANATION = ("theorems: chunk independence of feed/end for all strings and all chunkings (C15_chunking, C15_finish_sim), BOM "
                "once, fast path = slow path under the proved side condition on the sets; model = code on exhaustive "
-               "single-transition covers; exact_errors independence, CR/NUL uniformity and the tree level are checked "
-               "code-vs-code")
+               "single-transition covers; exact_errors independence of the whole token stream incl. end() (C15_exact_errors_tokens); "
+               "CR/NUL uniformity and the tree level are checked code-vs-code")
 
 IDS = ["Public", "System"]
 AVK = ["Unquoted", "SingleQuoted", "DoubleQuoted"]
